@@ -37,7 +37,7 @@ def gen_txn(rnd):
     c = rnd.choice(['Food', 'Bills', 'Fun', ''])
     s = rnd.choice(['a', 'b', ''])
     d = f'{rnd.choice([2024, 2025])}-{rnd.randint(1, 12):02d}-{rnd.randint(1, 28):02d}'
-    return {'a': a, 'tags': tags, 'm': m, 'c': c, 's': s, 'd': d}
+    return {'a': a, 'tags': tags, 'm': m, 'c': c, 's': s, 'd': d, 'src': rnd.choice(['Amex', 'Chase', 'Chase', 'Bank'])}
 
 
 def gen_cases(seed, n):
@@ -51,12 +51,31 @@ def gen_cases(seed, n):
                 base.append({'a': a, 'tags': [casing(rnd, w) for w in sub], 'm': 'M' + str(len(base) % 3), 'c': 'C',
                              's': 's' + str(len(base) % 2), 'd': f'2025-0{1 + len(base) % 3}-10'})
     cases.append({'txns': base, 'perm': list(reversed(range(len(base)))), 'split': len(base) // 2, 'singles': True})
+    coffee = {'a': 304, 'tags': [], 'm': 'Cafe', 'c': 'Food', 's': 'x', 'd': '2025-03-10'}
+    xfer = {'a': -32000, 'tags': ['transfer'], 'm': 'Bank', 'c': 'T', 's': '', 'd': '2025-03-10'}
+    for srcs in (['A', 'B', 'A'], ['B', 'A', 'A'], ['A', 'A', 'A'], ['A', 'B', 'C']):
+        txns = [dict(coffee, src=x) for x in srcs] + [dict(xfer, src=x) for x in srcs[:2]]
+        cases.append({'txns': txns, 'perm': list(reversed(range(len(txns)))), 'split': 2, 'singles': True})
+    # months that net to zero or below, refund-only merchants first in a month, multi-year same month numbers
+    for seq in ([-500, 300], [-500, 500], [300, -800, 100], [-100], [0, -64], [640, -640, 64]):
+        txns = [{'a': a, 'tags': [], 'm': f'M{i}', 'c': 'C', 's': '', 'd': '2025-04-0%d' % (i + 1)} for i, a in enumerate(seq)]
+        txns += [{'a': 128, 'tags': [], 'm': 'Z', 'c': 'C', 's': '', 'd': '2024-04-09'}, {'a': 64, 'tags': ['Transfer'], 'm': 'Z', 'c': 'C', 's': '', 'd': '2025-04-09'}]
+        for order in (txns, txns[::-1]):
+            cases.append({'txns': order, 'perm': list(reversed(range(len(order)))), 'split': 1, 'singles': False})
     for trip in itertools.islice(itertools.combinations(base, 3), 0, 60):
         for perm in itertools.permutations(range(3)):
             cases.append({'txns': list(trip), 'perm': list(perm), 'split': 1})
     for i in range(n):
         k = rnd.choice([1, 2, 3, 5, 8, 13, 30])
         txns = [gen_txn(rnd) for _ in range(k)]
+        if k >= 2 and rnd.random() < 0.35:
+            # the same payment seen twice: identical row under another source / the same source (each must count)
+            for _ in range(rnd.randint(1, 2)):
+                dup = dict(rnd.choice(txns))
+                if rnd.random() < 0.7:
+                    dup['src'] = rnd.choice(['Amex', 'Chase', 'Bank', 'Card2'])
+                txns.insert(rnd.randint(0, len(txns)), dup)
+            k = len(txns)
         perm = list(range(k))
         rnd.shuffle(perm)
         cases.append({'txns': txns, 'perm': perm, 'split': rnd.randint(0, k), 'singles': i % 10 == 0})
